@@ -374,6 +374,21 @@ def run(ctx):
 
     # ---- R8 resolve_unit never guesses: every Ok(..) is X.remove(0)/X[0] under `X.len() == 1`
     ctx.rule("C17.R8", "resolve_unit returns Ok only with the single element of a candidate list tested `len() == 1`; the exact-match list is consulted before the case-insensitive one", floor=2)
+    # a unit enters a candidate list at most once: a push per matching *identifier* (inside a loop over the unit's identifiers) counts a unit
+    # with two spellings of one name (hz / Hz) twice and turns `HZ` into an ambiguity
+    hru = core.hir_fn("blots_core::units::resolve_unit")
+    per_alias = []
+    n_push = 0
+    for lp in H.walk(hru["body"]):
+        if H.kind(lp) != "For":
+            continue
+        for inner in H.walk(lp["body"]):
+            if H.kind(inner) == "For" and any(H.kind(y) == "Field" and y["name"] == "identifiers" for y in H.walk(inner["iter"])):
+                for x in H.walk(inner["body"]):
+                    if H.kind(x) == "MethodCall" and x["name"] == "push" and "Unit" in (x.get("recv_ty") or x["recv"].get("ty") or ""):
+                        per_alias.append(H.loc(x))
+    n_push = sum(1 for x in H.walk(hru["body"]) if H.kind(x) == "MethodCall" and x["name"] == "push" and "Unit" in (x.get("recv_ty") or x["recv"].get("ty") or ""))
+    ctx.inst("C17.R8", "resolve_unit#one-entry-per-unit", not per_alias, "%d push(es) into candidate lists; inside a loop over a unit's identifiers (one entry per matching spelling): %s" % (n_push, per_alias or "none"), H.loc(hru["body"]))
     RU = "blots_core::units::resolve_unit"
     ru = M.Fn(core.mir_fn(RU), RU)
     TAKE = ("::remove", "::swap_remove", "::pop")
